@@ -13,7 +13,7 @@ import (
 func init() { Registry["C04"] = checkC04 }
 
 func checkC04(p *core.Prog, r *core.Report) {
-	r.Explanation = "Decides structural necessary conditions of no-lost-wake-up and queue order: (R1) in every function that lowers a key's depth (store LockManager.locked := locked - n), every path from that store to the function's exit calls wakeUpWaitLocks for the same manager; (R2) the wake-up pass re-reads the queue head after every grant and exits only when not waited / head nil / head inadmissible; (R3) GetWaitLock returns the container's Head() and discards only tombstoned or ack-pending entries; (R4) in Lock a newcomer is granted while the key is held and has waiters only with the priority flag and doCheckLockWaitPriority==true; (R5) doCheckLockWaitPriority is strict (>); (R6) AddWaitLock skips the switch to the priority ring only when priorities cannot differ. NOT decided: FIFO/priority order inside the containers and their migrations (C20 territory), interleavings between the unlock and the pass."
+	r.Explanation = "Decides structural necessary conditions of no-lost-wake-up and queue order: (R1) in every function that lowers a key's depth (store LockManager.locked := locked - n), every path from that store to the function's exit calls wakeUpWaitLocks for the same manager; (R2) the wake-up pass re-reads the queue head after every grant and exits only when not waited / head nil / head inadmissible; (R3) GetWaitLock returns the container's Head() and discards only tombstoned or ack-pending entries; (R4) in Lock a newcomer is granted while the key is held and has waiters only with the priority flag and doCheckLockWaitPriority==true; (R5) doCheckLockWaitPriority is strict (>); (R6) AddWaitLock skips the switch to the priority ring only when priorities cannot differ. (R7) the migration to the priority ring feeds it in arrival order (inline slice before overflow ring). NOT decided: FIFO/priority order inside the containers and their migrations (C20 territory), interleavings between the unlock and the pass."
 	r.Assumptions = []string{"Go type checker and go/ssa are correct for /repo", "container methods Head/Pop/Push/MaxPriority behave as a queue (C20, not claimed)"}
 	c04R1(p, r)
 	c04R2(p, r)
@@ -21,6 +21,7 @@ func checkC04(p *core.Prog, r *core.Report) {
 	c04R4(p, r)
 	c04R5(p, r)
 	c04R6(p, r)
+	c04R7(p, r)
 }
 
 var lmLocked = fk("server.LockManager", "locked")
@@ -433,4 +434,51 @@ func c04R6(p *core.Prog, r *core.Report) {
 		},
 	})
 	ex.Run(fn, nil)
+}
+
+// c04R7: the wait queue serves its inline slice before its overflow ring, so
+// everything in the slice arrived before everything in the ring. When the
+// queue is migrated to the priority ring (first request with a different
+// priority), each priority level of the new ring is FIFO: the migration has to
+// feed it in arrival order - slice entries before ring entries - or later
+// requests of a priority end up in front of earlier ones of the same priority.
+func c04R7(p *core.Prog, r *core.Report) {
+	const rule = "C04/R7"
+	r.Rule(rule, "RePushPriorityRingQueue feeds the new priority ring in arrival order: no entry of the old overflow ring is pushed before an entry of the inline slice", 1)
+	fn := mustFunc(p, r, "server.(*LockManagerWaitQueue).RePushPriorityRingQueue")
+	if fn == nil {
+		return
+	}
+	pushes := 0
+	bad := false
+	ex := core.NewExplorer(p, core.Hooks{
+		Instr: func(x *core.X) {
+			c := core.StaticCallee(x.Ins)
+			if c == nil || c.Name() != "Push" || !strings.Contains(recvName(c), "RingQueue") {
+				return
+			}
+			v := core.Plain(argCanon(x, x.Ins, 1))
+			switch {
+			case strings.Contains(v, ".fastQueue["):
+				pushes++
+				if x.Get("ring") == "1" && !bad {
+					bad = true
+					r.Violate(rule, "server.(*LockManagerWaitQueue).RePushPriorityRingQueue: migration order", x.Pos(), "an entry of the inline slice (earlier arrival) is pushed into the new priority ring after entries of the overflow ring (later arrivals): within a priority level later requests overtake earlier ones", x.St.Trace)
+				}
+			case strings.HasPrefix(v, "Pop(") || strings.Contains(v, ".ringQueue"):
+				pushes++
+				x.Set("ring", "1")
+			}
+		},
+	})
+	ex.NoHist = true
+	ex.Run(fn, nil)
+	if ex.Imprecise != "" {
+		r.Fail("C04/R7: %s", ex.Imprecise)
+	}
+	if pushes == 0 {
+		r.Fail("C04/R7: no push into the new ring found")
+	} else if !bad {
+		r.Hold(rule, "server.(*LockManagerWaitQueue).RePushPriorityRingQueue: migration order", p.Pos(fn.Pos()), "slice entries are pushed before ring entries on every path")
+	}
 }
